@@ -130,6 +130,7 @@ type c07Op struct {
 	On     bool   `json:"on"`
 	Tamper string `json:"tamper"` // swap garbage foreign extend delete-cache
 	Store  string `json:"store"`  // primary | cache
+	Hours  int    `json:"hours"`  // age: the stored record gets this much older
 }
 
 type c07Case struct {
@@ -146,7 +147,7 @@ func c07Gen(t *rapid.T) c07Case {
 		switch rapid.IntRange(0, 11).Draw(t, "kind") {
 		case 0, 1, 2, 3, 4:
 			op.Kind = "login"
-			op.Pw = rapid.SampledFrom([]string{"current", "current", "current", "old", "wrong", "empty"}).Draw(t, "pw")
+			op.Pw = rapid.SampledFrom([]string{"current", "current", "current", "old", "wrong", "empty", "other"}).Draw(t, "pw")
 			op.Case = rapid.IntRange(0, 3).Draw(t, "case") == 0
 		case 5, 6:
 			op.Kind = "dir"
@@ -155,7 +156,8 @@ func c07Gen(t *rapid.T) c07Case {
 		case 7:
 			op.Kind = "change"
 		case 8:
-			op.Kind = "expire"
+			op.Kind = rapid.SampledFrom([]string{"expire", "age", "age"}).Draw(t, "aging")
+			op.Hours = rapid.SampledFrom([]int{10, 50, 95}).Draw(t, "hours")
 			op.Store = rapid.SampledFrom([]string{"primary", "cache"}).Draw(t, "store")
 		case 9:
 			op.Kind = "sync"
@@ -169,10 +171,72 @@ func c07Gen(t *rapid.T) c07Case {
 		}
 		c.Ops = append(c.Ops, op)
 	}
-	// a typical tail: everything down, then logins
-	if rapid.Bool().Draw(t, "tail") {
-		c.Ops = append(c.Ops, c07Op{Kind: "dir", Server: 0, Mode: "down"}, c07Op{Kind: "dir", Server: 1, Mode: rapid.SampledFrom([]string{"down", "busy"}).Draw(t, "m1")},
-			c07Op{Kind: "login", User: 0, Pw: rapid.SampledFrom([]string{"current", "old", "wrong"}).Draw(t, "tpw0")},
+	// scenario motifs: multi-step situations whose steps must line up; details still drawn
+	u := rapid.IntRange(0, 1).Draw(t, "mu")
+	down := func() []c07Op {
+		return []c07Op{{Kind: "dir", Server: 0, Mode: rapid.SampledFrom([]string{"down", "busy"}).Draw(t, "d0")}, {Kind: "dir", Server: 1, Mode: rapid.SampledFrom([]string{"down", "busy"}).Draw(t, "d1")}}
+	}
+	up := []c07Op{{Kind: "dir", Server: 0, Mode: "up"}, {Kind: "dir", Server: 1, Mode: "up"}, {Kind: "outage", On: false}}
+	maybe := func(label string, ops ...c07Op) []c07Op {
+		if rapid.Bool().Draw(t, label) {
+			return ops
+		}
+		return nil
+	}
+	store := rapid.SampledFrom([]string{"primary", "cache"}).Draw(t, "mstore")
+	viaCache := func() []c07Op {
+		if store == "cache" {
+			return []c07Op{{Kind: "sync"}}
+		}
+		return nil
+	}
+	outageIfCache := func() []c07Op {
+		if store == "cache" {
+			return []c07Op{{Kind: "outage", On: true}}
+		}
+		return nil
+	}
+	switch rapid.IntRange(0, 7).Draw(t, "motif") {
+	case 0: // eviction must reach the store that later decides
+		c.Ops = append(c.Ops, up...)
+		c.Ops = append(c.Ops, c07Op{Kind: "login", User: u, Pw: "current"})
+		c.Ops = append(c.Ops, maybe("s1", c07Op{Kind: "sync"})...)
+		c.Ops = append(c.Ops, c07Op{Kind: "change", User: u}, c07Op{Kind: "login", User: u, Pw: "old"})
+		c.Ops = append(c.Ops, maybe("s2", c07Op{Kind: "sync"})...)
+		c.Ops = append(c.Ops, maybe("o1", c07Op{Kind: "outage", On: true})...)
+		c.Ops = append(c.Ops, down()...)
+		c.Ops = append(c.Ops, c07Op{Kind: "login", User: u, Pw: "old"}, c07Op{Kind: "login", User: u, Pw: "current"})
+	case 1: // acceptance refreshes the record
+		c.Ops = append(c.Ops, up...)
+		c.Ops = append(c.Ops, c07Op{Kind: "login", User: u, Pw: "current"}, c07Op{Kind: "age", User: u, Hours: 95, Store: "primary"},
+			c07Op{Kind: "login", User: u, Pw: "current"}, c07Op{Kind: "age", User: u, Hours: rapid.SampledFrom([]int{10, 50}).Draw(t, "h2"), Store: "primary"})
+		c.Ops = append(c.Ops, viaCache()...)
+		c.Ops = append(c.Ops, outageIfCache()...)
+		c.Ops = append(c.Ops, down()...)
+		c.Ops = append(c.Ops, c07Op{Kind: "login", User: u, Pw: "current"})
+	case 2: // the signed expiry, not the column, decides
+		c.Ops = append(c.Ops, up...)
+		c.Ops = append(c.Ops, c07Op{Kind: "login", User: u, Pw: "current"})
+		c.Ops = append(c.Ops, viaCache()...)
+		c.Ops = append(c.Ops, c07Op{Kind: rapid.SampledFrom([]string{"expire", "age"}).Draw(t, "ek"), User: u, Hours: 97, Store: store}, c07Op{Kind: "tamper", User: u, Tamper: "extend", Store: store})
+		c.Ops = append(c.Ops, outageIfCache()...)
+		c.Ops = append(c.Ops, down()...)
+		c.Ops = append(c.Ops, c07Op{Kind: "login", User: u, Pw: "current"})
+	case 3: // a record signed for another user
+		c.Ops = append(c.Ops, up...)
+		c.Ops = append(c.Ops, c07Op{Kind: "login", User: 0, Pw: "current"}, c07Op{Kind: "login", User: 1, Pw: "current"})
+		c.Ops = append(c.Ops, viaCache()...)
+		c.Ops = append(c.Ops, c07Op{Kind: "tamper", User: u, Tamper: rapid.SampledFrom([]string{"swap", "swap", "foreign", "garbage"}).Draw(t, "tk"), Store: store})
+		c.Ops = append(c.Ops, outageIfCache()...)
+		c.Ops = append(c.Ops, down()...)
+		c.Ops = append(c.Ops, c07Op{Kind: "login", User: u, Pw: "other"}, c07Op{Kind: "login", User: 1 - u, Pw: "other"}, c07Op{Kind: "login", User: u, Pw: "current"})
+	case 4: // one replica rejects, the others do not answer
+		c.Ops = append(c.Ops, up...)
+		c.Ops = append(c.Ops, c07Op{Kind: "login", User: u, Pw: "current"}, c07Op{Kind: "change", User: u},
+			c07Op{Kind: "dir", Server: 1, Mode: rapid.SampledFrom([]string{"down", "busy"}).Draw(t, "d1x")}, c07Op{Kind: "login", User: u, Pw: "old"})
+	case 5:
+		c.Ops = append(c.Ops, down()...)
+		c.Ops = append(c.Ops, c07Op{Kind: "login", User: 0, Pw: rapid.SampledFrom([]string{"current", "old", "wrong"}).Draw(t, "tpw0")},
 			c07Op{Kind: "login", User: 1, Pw: rapid.SampledFrom([]string{"current", "old", "wrong"}).Draw(t, "tpw1")})
 	}
 	return c
@@ -181,9 +245,10 @@ func c07Gen(t *rapid.T) c07Case {
 // c07Rec is what the model knows about a stored record.
 type c07Rec struct {
 	exists  bool
-	pw      string // the password whose hash it holds
-	valid   bool   // untampered, signed for this user, not expired
-	unknown bool   // the model cannot tell (then nothing is asserted about it)
+	pw      string        // the password whose hash it holds
+	valid   bool          // untampered, signed for this user, not expired
+	left    time.Duration // remaining lifetime of the record (96 h when confirmed)
+	unknown bool          // the model cannot tell (then nothing is asserted about it)
 }
 
 func c07Check(c c07Case) *vResult {
@@ -246,6 +311,28 @@ func c07Check(c c07Case) *vResult {
 					}
 				}
 			}
+		case "age":
+			// time passes for the stored record: its signed and unsigned expiry move closer by Hours
+			db := st.db
+			m := primary
+			if op.Store == "cache" {
+				db, m = st.cacheDB, cache
+			}
+			if m[u].exists && m[u].valid && !m[u].unknown {
+				var jws string
+				var exp int64
+				if db.QueryRow("select jws_data, expiration_epoch from expiring_signed_user_data where username = ? and type = 1", u).Scan(&jws, &exp) == nil {
+					if data, err := st.getStorageDataFromStorageStringDataJWT(jws); err == nil {
+						newExp := exp - int64(op.Hours)*3600
+						aged, _ := st.genNewSerializedStorageStringDataJWT(u, 1, data.Data, newExp)
+						db.Exec("update expiring_signed_user_data set jws_data = ?, expiration_epoch = ? where username = ? and type = 1", aged, newExp, u)
+						m[u].left -= time.Duration(op.Hours) * time.Hour
+						if m[u].left <= time.Minute {
+							m[u].valid = false
+						}
+					}
+				}
+			}
 		case "sync":
 			if err := copyDBIntoSQLite(st.db, st.cacheDB, "sqlite"); err != nil {
 				res.violate("sync-error", "op %d: %v", i, err)
@@ -303,7 +390,10 @@ func c07Check(c c07Case) *vResult {
 			dir.Lock()
 			cur := dir.pw[u]
 			dir.Unlock()
-			pw := map[string]string{"current": cur, "old": old[u], "wrong": "certainly-wrong", "empty": ""}[op.Pw]
+			dir.Lock()
+			otherCur := dir.pw[c07Users[1-op.User]]
+			dir.Unlock()
+			pw := map[string]string{"current": cur, "old": old[u], "wrong": "certainly-wrong", "empty": "", "other": otherCur}[op.Pw]
 			typed := u
 			if op.Case {
 				typed = strings.ToUpper(u)
@@ -338,7 +428,7 @@ func c07Check(c c07Case) *vResult {
 					return res
 				}
 				if want {
-					primary[u] = &c07Rec{exists: true, pw: pw, valid: true}
+					primary[u] = &c07Rec{exists: true, pw: pw, valid: true, left: 96 * time.Hour}
 				} else if r := read[u]; r.exists && r.valid && !r.unknown && r.pw == pw {
 					// the rejected password was the cached one: the record is evicted from the primary
 					primary[u] = &c07Rec{}
